@@ -154,3 +154,14 @@ func safeExec(exec func(string, []string) []string, kind string, in []string) (o
 	}()
 	return exec(kind, in)
 }
+
+// PortClash reports whether an outcome is the SETUPERR of a listener that found its port taken: a port picked by
+// bind-note-release can be taken by another process of the machine in between. That is the sandbox, not the
+// implementation: callers start the case again in a fresh child process.
+func PortClash(f []string) bool {
+	if len(f) < 2 || f[0] != "SETUPERR" || f[1] == "-" {
+		return false
+	}
+	b, err := hex.DecodeString(f[1])
+	return err == nil && strings.Contains(string(b), "address already in use")
+}
